@@ -255,6 +255,8 @@ intptr_t mock_(TestReporter* test_reporter, const char *function, const char *mo
             destroy_cgreen_vector(actual_values);
             destroy_cgreen_vector(parameter_names);
 
+            if (stored_result.type == CGREEN_DOUBLE)
+                return box_double(stored_result.value.double_value);
             return stored_result.value.integer_value;
         }
     }
